@@ -230,6 +230,13 @@ class Ctx:
             m = re.search(r'File "\./([^"]+)", line (\d+)[^\n]*\n(Error:[^\n]*(?:\n[^\n]+){0,6})', out)
             if m:
                 res["first_error"] = {"file": m.group(1), "line": int(m.group(2)), "text": m.group(3)[:600]}
+        # re-run coqc on the property file alone so that only ITS Print Assumptions output is parsed
+        if rc == 0 and not missing:
+            with Lock(os.path.join(COQ, ".lock")):
+                rc2, out = sh(["coqc", "-Q", ".", "PV", "-w", "-notation-overridden,-deprecated-hint-without-locality,-deprecated-syntactic-definition", vfile], cwd=COQ, timeout=900)
+            if rc2 != 0:
+                res["ok"] = False
+                res["log_tail"] = out[-3000:]
         # Print Assumptions blocks: "Closed under the global context" or "Axioms:\n name : type"
         blocks = re.split(r"\n(?=Closed under the global context|Axioms:)", out)
         assum = []
@@ -279,44 +286,84 @@ class Ctx:
         return exe
 
     # ---------- step 4: running line-protocol processes ----------
-    def run_lines(self, cmd, cases, timeout_per_case=10.0, env=None, crash_tag="CRASH"):
+    def run_lines(self, cmd, cases, timeout_per_case=10.0, env=None, crash_tag="CRASH", max_line=64 << 20):
         """feed cases (list of str) to a line-protocol process; returns list of result lines.
-        If the process dies at case k, result k is 'CRASH <reason>' and the process is
-        restarted on the remaining cases."""
+        If the process dies at case k, result k is 'CRASH <reason>'; if it produces no answer
+        within timeout_per_case seconds (or floods its output) result k is 'HANG ...'; the
+        process is then restarted on the remaining cases."""
+        import threading, select
         results = [None] * len(cases)
         start = 0
         e = dict(os.environ)
-        e.setdefault("ASAN_OPTIONS", "detect_leaks=0:abort_on_error=0:allocator_may_return_null=1")
+        e.setdefault("ASAN_OPTIONS", "detect_leaks=0:abort_on_error=0:allocator_may_return_null=1:hard_rss_limit_mb=6000")
         e.setdefault("UBSAN_OPTIONS", "print_stacktrace=0")
         if env:
             e.update(env)
         while start < len(cases):
             chunk = cases[start:]
             data = ("\n".join(chunk) + "\n").encode()
-            to = max(30.0, timeout_per_case * len(chunk) / 20.0)
-            try:
-                p = subprocess.run(cmd, input=data, stdout=subprocess.PIPE, stderr=subprocess.PIPE, env=e, timeout=to)
-                outl = p.stdout.decode("latin-1").split("\n")
-                errtxt = p.stderr.decode("latin-1", "replace")
-                rc = p.returncode
-            except subprocess.TimeoutExpired as ex:
-                outl = (ex.stdout or b"").decode("latin-1").split("\n")
-                errtxt = "timeout"
-                rc = -999
-            if outl and outl[-1] == "":
-                outl.pop()
-            outl = [l for l in outl if not l.startswith("DIAG ")]
-            n = min(len(outl), len(chunk))
-            for i in range(n):
-                results[start + i] = outl[i]
-            if n == len(chunk) and rc == 0:
+            errf = tempfile.TemporaryFile(dir=self.scratch)
+            p = subprocess.Popen(cmd, stdin=subprocess.PIPE, stdout=subprocess.PIPE, stderr=errf, env=e)
+
+            def feed():
+                try:
+                    p.stdin.write(data)
+                    p.stdin.close()
+                except Exception:
+                    pass
+            th = threading.Thread(target=feed, daemon=True)
+            th.start()
+            fd = p.stdout.fileno()
+            buf = b""
+            n = 0
+            last = time.time()
+            reason = None
+            while n < len(chunk):
+                rl, _, _ = select.select([fd], [], [], 1.0)
+                if rl:
+                    d = os.read(fd, 1 << 20)
+                    if not d:
+                        break
+                    buf += d
+                    while True:
+                        k = buf.find(b"\n")
+                        if k < 0:
+                            break
+                        line = buf[:k].decode("latin-1")
+                        buf = buf[k + 1:]
+                        if line.startswith("DIAG "):
+                            continue
+                        if n < len(chunk):
+                            results[start + n] = line
+                            n += 1
+                            last = time.time()
+                    if len(buf) > max_line:
+                        reason = "HANG output-flood"
+                        break
+                elif time.time() - last > timeout_per_case:
+                    reason = "HANG timeout"
+                    break
+            if n >= len(chunk):
+                try:
+                    p.kill()
+                except Exception:
+                    pass
+                p.wait()
+                errf.close()
                 break
-            if n == len(chunk):
-                # all answered but exit status non-zero (e.g. leak report): accept
-                break
-            # died on case start+n
-            reason = "timeout" if rc == -999 else summarize_crash(errtxt, rc)
-            results[start + n] = "%s %s" % ("HANG" if rc == -999 else crash_tag, reason)
+            if reason:
+                p.kill()
+                p.wait()
+            else:
+                try:
+                    p.wait(timeout=20)
+                except subprocess.TimeoutExpired:
+                    p.kill(); p.wait()
+                errf.seek(0)
+                errtxt = errf.read(200000).decode("latin-1", "replace")
+                reason = "%s %s" % (crash_tag, summarize_crash(errtxt, p.returncode))
+            errf.close()
+            results[start + n] = reason
             start = start + n + 1
         return results
 
